@@ -87,3 +87,38 @@ Definition v_gen_fast (pofx x us : list Q) (out : result (list Q)) : Z :=
              | Err _ => false
              end
            else true).
+
+(* ---------------------------------------------------------------- input-form variants of v_gen_fast
+   k    : multiplier of the tolerance (1 for binary64 inputs; 2^29 = eps(float32)/eps(float64) when the grid
+          or density is handed over as float32, because numpy then builds the table in float32)
+   mono : run the quadratic pairwise monotonicity checker (switched off for long samples, where the
+          agreement with the monotone model is checked value by value anyway) *)
+Definition v_gen_opt (k : Q) (mono : bool) (pofx x us : list Q) (out : result (list Q)) : Z :=
+  let tbl := gen_tables false pofx x in
+  let xvals := fst tbl in
+  let pcum := snd tbl in
+  let tol := Qred (k * (relq * (qmaxabs x + max_slope xvals pcum))) in
+  verdict (match gen_sample false pofx x us, out with
+           | Ok m, Ok o => all2 (close_b tol) m o
+           | Err a, Err b => err_eqb a b
+           | _, _ => false
+           end)
+          (if gen_ok_b pofx x then
+             match out with
+             | Ok o => gen_check_t tol xvals pcum us o
+                       && (if mono then pairs_mono_b (2 * tol) (combine us o) else true)
+                       && in_grid_b tol (qnth pcum 0) x (combine us o)
+             | Err _ => false
+             end
+           else true).
+
+(* cumulative=True: pofx is the tabulated cumulative distribution itself (not the "density" of the
+   statement): model comparison only *)
+Definition v_gen_cum (pofx x us : list Q) (out : result (list Q)) : Z :=
+  let tbl := gen_tables true pofx x in
+  let tol := Qred (relq * (qmaxabs x + max_slope (fst tbl) (snd tbl))) in
+  verdict (match gen_sample true pofx x us, out with
+           | Ok m, Ok o => all2 (close_b tol) m o
+           | Err a, Err b => err_eqb a b
+           | _, _ => false
+           end) true.
